@@ -238,6 +238,6 @@ pub fn run_case(a: &Args, tag: &'static str, idx: u64, extreme: bool, acc: &mut 
 }
 
 pub fn run(a: &Args) -> Acc {
-    let n = a.n(150000, 2000000);
+    let n = a.n(300000, 2000000);
     par_run(a, "c14", n, |a, idx, acc| run_case(a, "c14", idx, false, acc))
 }
